@@ -162,7 +162,8 @@ class StochasticEvents:
         daily_sessions: List[np.ndarray] = []
         for d, num_sessions in enumerate(sessions_per_day):
             if num_sessions > 0:
-                daily_arrivals = self.sample(num_sessions)
+                # Work on a copy: the sampler's array is shifted to day d in place.
+                daily_arrivals = np.array(self.sample(num_sessions), dtype=float)
                 daily_arrivals[:, 0] += 24 * d
                 daily_sessions.append(daily_arrivals)
         ev_matrix = np.vstack([day for day in daily_sessions if day is not None])
